@@ -79,7 +79,15 @@ def transmitter(c):
     I, O, of, S = ts.inputs, ts.outputs, ts.of, ts.sig
     ptx = made["ptx"][0]
     # HeaderPacket() instances created by PacketTransmitter.__init__/elaborate, in order: ... the N buffers are the records made in elaborate()
-    bufs = [r for r in made["records"] if r is not ptx.header][-N:]
+    # ... the N buffers are the ones that are *registers* in the netlist (every field flip-flop backed), in creation order;
+    # further HeaderPacket records a refactoring may introduce as named combinational views are not buffers
+    ffs = {id(sg) for sg in ts.ff_signal.values()}
+    is_reg = lambda r: all(id(sg) in ffs for sg in r.fields.values() if sg in ts.nl.signals) and \
+        any(sg in ts.nl.signals for sg in r.fields.values())
+    bufs = [r for r in made["records"] if r is not ptx.header and is_reg(r)]
+    if len(bufs) != N:
+        from hwv.contract import BindingError
+        raise BindingError(f"expected {N} registered HeaderPacket buffers in PacketTransmitter, found {len(bufs)}")
     c.require("link_up", I["enable"] == 1, why="C39 is about the link in U0 (enable held); re-entry is the subject of C38")
     newcmd = I["det_new_command"] == 1
     cmd, sub = I["det_command"], I["det_subtype"]
